@@ -89,6 +89,41 @@ def ext4Op (args : List String) : String :=
 
 end Driver.RangesExt4
 
+namespace Driver.RangesSub
+open Diskfs.Ranges
+
+/-- `ranges.sub`: calls through a nest of backend.Sub windows (the window the caller holds first): what the device
+    sees for every ReadAt / WriteAt (`err` when the translated offset is negative: the device refuses it) and what
+    every Seek returns -/
+def subOp (args : List String) : String :=
+  let dev := argNatD args "dev"
+  let wins : List Win := (((arg args "wins").getD "").splitOn ";").filterMap fun s =>
+    match s.splitOn ":" with
+    | [a, b] => match a.toNat?, b.toNat? with
+      | some x, some y => some ⟨x, y⟩
+      | _, _ => none
+    | _ => none
+  let ops := ((arg args "ops").getD "").splitOn ","
+  let step (st : Int × List String) (tok : String) : Int × List String :=
+    match tok.splitOn ":" with
+    | [k, a, b] =>
+      match a.toInt?, b.toInt? with
+      | some x, some y =>
+        if k == "s" then
+          let wh : Whence := if x == 0 then .start else if x == 1 then .current else .«end»
+          match subSeek dev wins st.1 wh y with
+          | some (np, ret) => (np, st.2 ++ [toString ret])
+          | none => (st.1, st.2 ++ ["err"])
+        else
+          let abs := subAbs wins x
+          (st.1, st.2 ++ [if abs < 0 then "err" else s!"{abs}:{y}"])
+      | _, _ => (st.1, st.2 ++ ["?"])
+    | _ => (st.1, st.2 ++ ["?"])
+  let r := ops.foldl step ((0 : Int), [])
+  s!"res={",".intercalate r.2}"
+
+end Driver.RangesSub
+
 def main : IO Unit := Driver.runLoop fun op args =>
   match op with
   | "ranges.gpt" =>
@@ -96,4 +131,5 @@ def main : IO Unit := Driver.runLoop fun op args =>
   | "ranges.mbr" => s!"ws={regionsStr Diskfs.Ranges.mbrRegions}\tok=1"
   | "ranges.fat" => Driver.RangesFat.fatOp args
   | "ranges.ext4" => Driver.RangesExt4.ext4Op args
+  | "ranges.sub" => Driver.RangesSub.subOp args
   | _ => "unknown-op"
